@@ -22,6 +22,8 @@ type VerifProgress struct {
 	InflBytes                                uint64
 	InflFull                                 bool
 	InflWindow                               [][2]uint64 // (index, bytes), oldest first
+	InflSize                                 int         // configured limits of this window
+	InflMaxBytes                             uint64
 }
 
 // VerifRead is one queued ReadIndex request.
@@ -45,7 +47,10 @@ type VerifDump struct {
 	UnstableSnapshotInProgress                                          bool
 
 	Config   tracker.Config
-	Progress map[uint64]VerifProgress
+	// limits new Inflights are created with
+	TrackerMaxInflight      int
+	TrackerMaxInflightBytes uint64
+	Progress                map[uint64]VerifProgress
 	Votes    map[uint64]bool
 
 	ROAcks        map[uint64]uint64
@@ -73,6 +78,12 @@ func verifProgress(pr *tracker.Progress) VerifProgress {
 		in := reflect.ValueOf(pr.Inflights).Elem()
 		if f := in.FieldByName("bytes"); f.IsValid() {
 			out.InflBytes = f.Uint()
+		}
+		if f := in.FieldByName("size"); f.IsValid() {
+			out.InflSize = int(f.Int())
+		}
+		if f := in.FieldByName("maxBytes"); f.IsValid() {
+			out.InflMaxBytes = f.Uint()
 		}
 		start, size, buf := in.FieldByName("start"), in.FieldByName("size"), in.FieldByName("buffer")
 		if start.IsValid() && size.IsValid() && buf.IsValid() {
@@ -106,6 +117,8 @@ func (rn *RawNode) VerifState() VerifDump {
 		UnstableEntries: l.unstable.entries, UnstableSnapshot: l.unstable.snapshot,
 		UnstableSnapshotInProgress: l.unstable.snapshotInProgress,
 		Config:                     r.trk.Config.Clone(),
+		TrackerMaxInflight:         r.trk.MaxInflight,
+		TrackerMaxInflightBytes:    r.trk.MaxInflightBytes,
 		Progress:                   map[uint64]VerifProgress{},
 		Votes:                      map[uint64]bool{},
 		ROAcks:                     map[uint64]uint64{},
